@@ -198,9 +198,9 @@ class C17(framework.PropertyCheck):
         r = random.Random(case['seed'])
         w = impl.fresh()
         names = ['ka', 'kb', 'kc']
-        pre = {n: r.choice([0, 0, r.randint(1, 9)]) for n in names if r.random() < 0.5}    # also values that are false in Python
+        pre = {n: r.choice([0, 0, r.randint(1, 9), None]) for n in names if r.random() < 0.5}    # also values that are false in Python, and "nothing"
         for n, v in pre.items():
-            w.eval(impl.parse(f'(define {n} {v})'))
+            w.eval(impl.parse(f'(define {n} {v})' if v is not None else f'(define {n} (if #f 1))'))
         kw = {n: r.choice([0, r.randint(10, 19)]) for n in names if r.random() < 0.6}
         expr = '(list ' + ' '.join(f"(if (defined? '{n}) {n} \"-\")" for n in names) + ')'
         res = impl.run_eval(w, impl.parse(expr), 'eorg')
@@ -212,8 +212,9 @@ class C17(framework.PropertyCheck):
         except BaseException as e:  # noqa: BLE001
             return {'what': 'Wal.eval with keyword bindings raised', 'pre': pre, 'kw': kw, 'error': type(e).__name__}
         after = impl.run_eval(w, impl.parse(expr), 'eorg')
-        want_during = ('L', True, tuple(('I', kw[n]) if n in kw else ('I', pre[n]) if n in pre else ('S', '-') for n in names))
-        want_after = ('L', True, tuple(('I', pre[n]) if n in pre else ('S', '-') for n in names))
+        cv = lambda v: wire.canon(v)     # noqa: E731
+        want_during = ('L', True, tuple(('I', kw[n]) if n in kw else cv(pre[n]) if n in pre else ('S', '-') for n in names))
+        want_after = ('L', True, tuple(cv(pre[n]) if n in pre else ('S', '-') for n in names))
         if during != want_during:
             return {'what': 'keyword bindings not visible during the evaluation', 'pre': pre, 'kw': kw, 'got': during, 'want': want_during}
         if after[0] != 'ok' or wire.canon(after[1]) != want_after or res[0] != 'ok':
